@@ -252,8 +252,16 @@ type genCtx struct {
 var dirsPool = []string{"", "a", "b", "a/sub", "c"}
 
 // GenWorld draws a world of 1..maxFiles schema files.
-func GenWorld(t *rapid.T, maxFiles int) *World {
+func GenWorld(t *rapid.T, maxFiles int) *World { return GenWorldOpt(t, maxFiles, false, false) }
+
+// GenWorldOpt: recCombo forces reference cycles through allOf/anyOf to be
+// possible; http allows one schema to be referenced over (simulated) HTTP.
+func GenWorldOpt(t *rapid.T, maxFiles int, recCombo, http bool) *World {
 	feat := drawFeat(t)
+	if recCombo {
+		feat.RecCombo, feat.LocalRef, feat.Recur = true, true, true
+		feat.AllOf = true
+	}
 	w := &World{Root: "/w", Feat: feat}
 	n := rapid.IntRange(1, maxFiles).Draw(t, "nfiles")
 	npkg := 1
@@ -304,6 +312,20 @@ func GenWorld(t *rapid.T, maxFiles int) *World {
 	for _, f := range w.Files {
 		g := &genCtx{t: t, w: w, f: f, feat: feat, curDef: -1}
 		g.genDoc()
+	}
+	if http && w.Files[0].RootObj && rapid.IntRange(0, 3).Draw(t, "http") == 0 {
+		yaml := rapid.IntRange(0, 3).Draw(t, "httpyaml") == 0
+		doc := Obj{{"$id", "https://example.com/web"}, {"type", "object"}, {"properties", Obj{{"mk_web", Obj{{"type", "string"}}}, {"webn", Obj{{"type", "integer"}}}}}}
+		e := simrt.WebEnt{URL: "http://example.com/s/webf.json", ContentType: rapid.SampledFrom([]string{"application/json", "", "text/plain"}).Draw(t, "ctype"), Body: RenderJSON(doc, nil)}
+		if yaml {
+			e = simrt.WebEnt{URL: "http://example.com/s/webf.yaml", ContentType: rapid.SampledFrom([]string{"application/yaml", "", "text/yaml"}).Draw(t, "ctypey"), Body: RenderYAML(doc, nil)}
+		}
+		w.Web = append(w.Web, e)
+		f := w.Files[0]
+		props, _ := f.Doc.Get("properties")
+		if po, ok := props.(Obj); ok {
+			f.Doc = f.Doc.Set("properties", append(po, KV{f.Tag + "h1", Obj{{"$ref", e.URL}}}))
+		}
 	}
 	return w
 }
